@@ -426,7 +426,7 @@ pub fn edit_program<R: Rng>(rng: &mut R, p: &mut Program) -> String {
                 what = "added a variant";
             } else {
                 let i = rng.gen_range(0..vs.len());
-                match rng.gen_range(0..8) {
+                match rng.gen_range(0..9) {
                     0 => {
                         vs[i].name = "RenamedVariant".into();
                         what = "renamed a variant";
@@ -467,6 +467,17 @@ pub fn edit_program<R: Rng>(rng: &mut R, p: &mut Program) -> String {
                         // the other version is a strict prefix of this one
                         vs.pop();
                         what = "removed the last variant";
+                    }
+                    8 if vs.len() >= 2 => {
+                        // same variants, same codec indices, another listing order
+                        for (k, v) in vs.iter_mut().enumerate() {
+                            if v.index.is_none() {
+                                v.index = Some(k as u8);
+                            }
+                        }
+                        let j = (i + 1) % vs.len();
+                        vs.swap(i, j);
+                        what = "listed the variants in another order (indices pinned)";
                     }
                     1 => {
                         // re-index: swap with an unused index
